@@ -331,5 +331,60 @@ func checkC05(c *core.Ctx) {
 			c.Nontrivial(fmt.Sprintf("t%d", i))
 		}
 	})
+	// transposition out of the MIDI range: a performance in a key in which a tone would leave 0..127 cannot be
+	// "every pitch shifted by the tonic distance" - it has to be refused, never written with other pitches
+	c.Stream("range", c.N(300, 6000), func(i int, r *rand.Rand) {
+		p := model.RandPiece(r, model.GenOpts{MinLen: 1, MaxLen: 5, RestProb: 0.2, SettingProb: 0.1, KeyChanges: false, BassProb: 0.3, MaxDeg: 9})
+		hit := false
+		for j := range p.Inst {
+			if ch := p.Inst[j].Chord; ch != nil && (!hit || r.Intn(3) == 0) {
+				n := 29 + r.Intn(12) // around the top of the range: in some keys inside, in others not
+				q := theory.Major
+				if k := (n - 1) % 7; k == 0 || k == 3 || k == 4 {
+					q = theory.Perfect
+				}
+				ch.Deg = theory.Interval{N: n, Q: q}
+				hit = true
+			}
+		}
+		if !hit {
+			return
+		}
+		k := keys[r.Intn(len(keys))]
+		f := model.Flags{Key: k.String()}
+		inRange := p.Effective(f).AllInRange()
+		res, out := playPiece(c, p, f, writeOpts{})
+		if infra(c, res) {
+			return
+		}
+		det := withYAML(map[string]any{"key": k.String(), "all_tones_inside_0_127": inRange}, p)
+		if a := abnormal(res); a != "" {
+			c.Violate("range", i, "range:abnormal", "crd write "+a, det)
+			return
+		}
+		if inRange {
+			if !res.OK() {
+				c.Violate("range", i, "range:refused", fmt.Sprintf("every tone of the piece is inside the MIDI range in %s, but crd write refuses it", k), mergeMaps(det, map[string]any{"run": obs(res)}))
+				return
+			}
+			c.Count("range_inside", 1)
+			return
+		}
+		if res.OK() {
+			file, _ := decodeSMF(out)
+			top := -1
+			if file != nil {
+				for _, e := range mergedEvents(file) {
+					if e.Kind == smfdec.NoteOn && e.Key() > top {
+						top = e.Key()
+					}
+				}
+			}
+			c.Violate("range", i, "range:accepted", fmt.Sprintf("in %s a tone of the piece lies above MIDI key 127, but crd write succeeds (highest key written: %d): the pitches cannot be the written ones", k, top), det)
+			return
+		}
+		c.Count("range_refused", 1)
+		c.Nontrivial(fmt.Sprintf("range%d", i))
+	})
 	_ = strings.Join
 }
